@@ -780,6 +780,8 @@ def _lattice(rep, prop, q, par):
         gens = [{"Infras": "<- Infras%sQ" % tag, "Profiles": "<- Prof%sQ" % tag, "Opts": "<- Opts%sQ%d" % (tag, k)} for k in (1, 2)]
         # two sessions with the same departure (they may share bound arrays when the caller builds them)
         gens.append({"Infras": "<- InfrasShare", "Profiles": "<- ProfShare", "Opts": "<- OptsShare"})
+        # negative laxities (sessions that cannot finish any more); duplicated constraint rows with different limits
+        gens.append({"Infras": "<- InfrasNeg", "Profiles": "<- ProfNeg", "Opts": "<- OptsNeg"})
         if prop == "C08":   # thousands of round-robin steps per case (increment 0.02 A)
             gens.append({"Infras": "<- InfrasRR002", "Profiles": "<- ProfRR002", "Opts": "<- OptsRR002"})
     else:
@@ -789,6 +791,7 @@ def _lattice(rep, prop, q, par):
         gens = [{"Infras": "<- " + i, "Profiles": "<- Prof%s%s" % (tag, "N" if "N" in i[6:] else "T"), "Opts": "<- Opts%sT%s" % (tag, f)}
                 for i in infs for f in "abcd"]
         gens.append({"Infras": "<- InfrasRR01", "Profiles": "<- ProfRR01", "Opts": "<- OptsRR01"})
+        gens.append({"Infras": "<- InfrasNeg", "Profiles": "<- ProfNeg", "Opts": "<- OptsNeg"})
         gens.append({"Infras": "<- InfrasRR002", "Profiles": "<- ProfRR002", "Opts": "<- OptsRR002"})
     what = {"C07": "exhaustive model checking of OutputFeasible, LevelsAllowed, WithinDemand, WithinEstimatorOrMin, ZeroForInactive, "
                    "NeverValueError in every state of every scheduler run",
@@ -842,6 +845,10 @@ def check_C07(tier, seed):
                      "invocations were re-executed and judged by TLC" % (len(lines), st["invocations"]))
     for g in groups[:: max(1, len(groups) // 3)][:3]:
         rep.sample({k: g[0][k] for k in ("net", "ses", "opt", "pilot", "lb", "ub")})
+    # the estimator's bound itself: SimpleRampdown's table across invocations (Rampdown.tla), model-checked, replayed and
+    # validated on closed-loop traces
+    from .props_rampdown import check_rampdown
+    check_rampdown(rep, tier, seed, par)
     return rep.finish()
 
 
